@@ -114,3 +114,206 @@ def single_attribute_corruption(tier, seed):
 def _replay(f):
     i = f['input']
     return check(i['kind'], bytes.fromhex(i['body']), i.get('attribute_type'), i.get('corruption')) is None
+
+
+# ---------------------------------------------------------------------------------------------------------------------
+# two-step histories through the REAL Protocol.read_message (the pipeline above hands the decoded message to the handler
+# itself, and so never ran the statements of read_message which sit between the decoder and the handler -- one of them
+# used to drop every UPDATE with a discarded attribute).  A route is stored first; the second UPDATE is malformed in one
+# attribute and, per RFC 7606, must end in exactly one of: its routes withdrawn / the attribute alone dropped and THE
+# REST APPLIED / the session reset.  "Nothing happened" is none of them.
+import asyncio  # noqa: E402
+import collections  # noqa: E402
+import json  # noqa: E402
+
+
+class _Peer:
+    def __init__(self, nb):
+        self.neighbor = nb
+        self.stats = collections.defaultdict(int)
+        self.events = []
+        outer = self
+
+        class _Processes:
+            def message(self_, msg_id, peer_, direction, message, header, body, negotiated):
+                from exabgp.reactor.api.response.json import JSON
+
+                if getattr(message, 'IS_EOR', False):
+                    outer.events.append({'eor': True})
+                    return
+                text = JSON('6.0.0').update(nb, direction, message.data, header, body, negotiated)
+                outer.events.append(json.loads(text)['neighbor']['message'].get('update', {}))
+
+            def __getattr__(self_, name):
+                return lambda *a, **k: None
+
+        class _Reactor:
+            processes = _Processes()
+
+        self.reactor = _Reactor()
+
+    def id(self):
+        return 'peer'
+
+
+class _Conn:
+    def __init__(self):
+        self.msg_size = 4096
+        self.next = None
+
+    def session(self):
+        return 's'
+
+    async def reader_async(self):
+        return self.next
+
+
+def _history_session(kind):
+    from exabgp.reactor.protocol import Protocol
+    from exabgp.reactor.peer.context import PeerContext
+    from exabgp.bgp.message.update.attribute.collection import AttributeCollection
+
+    nb, neg = P.get_session(kind)
+    nb.rib.incoming.clear_cache()
+    AttributeCollection.cached = None
+    AttributeCollection.previous = b''
+    saved_api, saved_rib = nb.api, nb.adj_rib_in
+    nb.api = dict(nb.api or {})
+    for k in ('receive-parsed', 'receive-update'):
+        nb.api[k] = True
+    nb.adj_rib_in = True
+    peer = _Peer(nb)
+    proto = Protocol(peer)
+    proto.negotiated = neg
+    proto.connection = _Conn()
+    ctx = PeerContext(proto=proto, neighbor=nb, negotiated=neg, refresh_enhanced=False, routes_per_iteration=1, peer_id='p', stats=peer.stats)
+    return proto, ctx, peer, (nb, saved_api, saved_rib)
+
+
+def _feed(sess, body):
+    from exabgp.reactor.peer.handlers.update import UpdateHandler
+
+    proto, ctx, peer, _ = sess
+    header = b'\xff' * 16 + struct.pack('!HB', 19 + len(body), 2)
+    proto.connection.next = (19 + len(body), 2, header, body, None)
+    before = len(peer.events)
+    loop = asyncio.new_event_loop()
+    try:
+        try:
+            msg = loop.run_until_complete(proto.read_message())
+        except Exception as e:  # noqa
+            if type(e).__name__ in ('Notify',):
+                return ('notification', (e.code, e.subcode)), []
+            return ('exception', f'{type(e).__name__}: {e}'[:160]), []
+        h = UpdateHandler()
+        if h.can_handle(msg):
+            loop.run_until_complete(h.handle_async(ctx, msg))
+    finally:
+        loop.close()
+    return ('update', None), peer.events[before:]
+
+
+def _rib(sess):
+    return {str(r.nlri): json.loads('{' + r.attributes.json() + '}') for r in sess[1].neighbor.rib.incoming.cached_routes()}
+
+
+def _attr(flag, code, value):
+    return bytes([flag, code, len(value)]) + value
+
+
+def _history_cases():
+    origin, aspath, nh = W.origin(0), W.as_path([65001], True), W.next_hop('192.0.2.1')
+    base = origin + aspath + nh
+    med10, med20 = _attr(0x80, 4, (10).to_bytes(4, 'big')), _attr(0x80, 4, (20).to_bytes(4, 'big'))
+    p0, p1 = bytes([24, 10, 0, 0]), bytes([24, 10, 0, 1])
+    nh6 = bytes.fromhex('20010db8000000000000000000000001')
+    mp_value = struct.pack('!HB', 2, 1) + b'\x10' + nh6 + b'\x00' + bytes([32, 0x20, 0x01, 0x0D, 0xB8])
+    unreach_value = struct.pack('!HB', 2, 1) + bytes([32, 0x20, 0x01, 0x0D, 0xB8])
+    v4 = W.update_body(b'', base + med10, p0)
+    v6 = W.update_body(b'', origin + aspath + med10 + _attr(0x80, 14, mp_value), b'')
+    cases = []
+    # discard class (RFC 7606 7.6, 7.7; RFC 7311 3.4): the rest of the UPDATE -- its withdraw and its announce -- applies
+    for name, bad in (
+        ('AGGREGATOR of 5 octets', _attr(0xC0, 7, bytes(5))),
+        ('ATOMIC_AGGREGATE of 1 octet', _attr(0x40, 6, b'\x00')),
+        ('AS4_AGGREGATOR of 7 octets', _attr(0xC0, 18, bytes(7))),
+        ('a valid AIGP on a session without the aigp capability', _attr(0x80, 26, b'\x01\x00\x0b' + (5).to_bytes(8, 'big'))),
+    ):
+        cases.append(('discard', name, v4, W.update_body(p0, base + bad, p1), {'10.0.0.0/24'}, {'10.0.1.0/24'}))
+    # the MP attributes themselves malformed at header level, and a header overrun in front of MP_REACH_NLRI
+    cases.append(('mp', 'MP_REACH_NLRI with the transitive bit set', v6, W.update_body(b'', origin + aspath + med20 + _attr(0xC0, 14, mp_value), b''), {'2001:db8::/32'}, set()))
+    cases.append(('mp', 'MP_REACH_NLRI of length zero', v6, W.update_body(b'', origin + aspath + med20 + _attr(0x80, 14, b''), b''), {'2001:db8::/32'}, set()))
+    cases.append(('mp', 'MP_UNREACH_NLRI with the transitive bit set (the peer withdraws the route)', v6, W.update_body(b'', _attr(0xC0, 15, unreach_value), b''), {'2001:db8::/32'}, set()))
+    # (known finding C08-overrun-before-mp-reach) a header overrun stops the attribute walk: an MP_REACH_NLRI placed after it
+    # is never read, so there is nothing to withdraw -- and nothing is reset either
+    cases.append(('mp', 'MED whose header overruns the block, placed before MP_REACH_NLRI', v6, W.update_body(b'', origin + aspath + bytes([0x80, 4, 0xF0]) + _attr(0x80, 14, mp_value), b''), {'2001:db8::/32'}, set()))
+    # (known finding C08-aspath-zero-length-segment) RFC 7606 7.2: a path segment of length zero is a malformed AS_PATH
+    cases.append(('hard', 'AS_PATH with a segment of length zero', v4, W.update_body(b'', origin + _attr(0x40, 2, b'\x02\x00\x02\x01' + (65001).to_bytes(4, 'big')) + nh, p1), set(), set()))
+    # NEXT_HOP of 16 octets for routes of the NLRI field
+    cases.append(('hard', 'NEXT_HOP of 16 octets', v4, W.update_body(b'', origin + aspath + _attr(0x40, 3, bytes(range(1, 17))), p1), set(), set()))
+    return cases
+
+
+def _history_case(k):
+    cls_, name, first, second, gone, kept = _history_cases()[k]
+    sess = _history_session('ebgp4')
+    nb, saved_api, saved_rib = sess[3]
+    inp = {'case': k, 'second_update': name, 'first': first.hex(), 'second': second.hex()}
+    try:
+        st, _ev = _feed(sess, first)
+        if st[0] != 'update' or not _rib(sess):
+            raise RuntimeError(f'harness: the first, well-formed UPDATE was not stored ({st})')
+        before = _rib(sess)
+        st, ev = _feed(sess, second)
+        if st[0] == 'exception':
+            return {'what': f'{name}: untyped error out of read_message / the handler: {st[1]}', 'input': inp}
+        if st[0] == 'notification':
+            if st[1][0] != 3:
+                return {'what': f'{name}: session reset with NOTIFICATION {st[1]}, not an UPDATE Message Error', 'input': inp}
+            return None  # session reset: one of the three outcomes
+        after = _rib(sess)
+        api_announced = any(e.get('announce') for e in ev)
+        if cls_ == 'discard':
+            want = (set(before) - gone) | kept
+            if set(after) != want:
+                return {'what': f'{name} (attribute discard): only the attribute is dropped and the rest kept -- Adj-RIB-In holds {sorted(after)}, the rest of the UPDATE (withdraw {sorted(gone)}, announce {sorted(kept)}) gives {sorted(want)}', 'input': inp, 'api_events': str(ev)[:300]}
+            return None
+        if cls_ == 'mp':
+            if set(after) & gone and after == before and not any(e.get('withdraw') for e in ev):
+                return {'what': f'{name}: marked malformed, yet nothing was withdrawn, nothing was reset: Adj-RIB-In still holds {sorted(after)} exactly as before', 'input': inp}
+            return None
+        if api_announced or (set(after) - set(before)):
+            return {'what': f'{name}: its routes were announced / stored ({sorted(set(after) - set(before))})', 'input': inp, 'api_events': str(ev)[:300]}
+        return None
+    finally:
+        nb.api, nb.adj_rib_in = saved_api, saved_rib
+        nb.rib.incoming.clear_cache()
+
+
+@bounded('C08', 'histories-through-read-message')
+def histories_through_read_message(tier, seed):
+    fails = []
+    n = len(_history_cases())
+    for k in range(n):
+        f = _history_case(k)
+        if f:
+            fails.append(f)
+    return {'evaluations': n, 'distinct_nontrivial': n, 'bound': f'{n} two-UPDATE histories through the real Protocol.read_message, JSON encoder, UpdateHandler and Adj-RIB-In: a stored route, then an UPDATE with one malformed attribute of the discard class (4 shapes, carrying a withdraw and an announce), with MP_REACH / MP_UNREACH malformed at header level (3), with a 16 octet NEXT_HOP', 'rule': 'one case = (first UPDATE, second UPDATE)', 'samples': [{'second_update': _history_cases()[0][1]}], 'failures': fails}
+
+
+@replayer('C08', 'histories-through-read-message')
+def _replay_hist(f):
+    return _history_case(f['input']['case']) is None
+
+
+from .registry import region  # noqa: E402
+
+
+@region('C08-overrun-before-mp-reach')
+def _region_overrun(failure):
+    return failure.get('input', {}).get('second_update') == 'MED whose header overruns the block, placed before MP_REACH_NLRI' and 'nothing was withdrawn' in failure.get('what', '')
+
+
+@region('C08-aspath-zero-length-segment')
+def _region_zero_segment(failure):
+    return failure.get('input', {}).get('second_update') == 'AS_PATH with a segment of length zero' and 'announced / stored' in failure.get('what', '')
